@@ -1,13 +1,353 @@
-import RtenVerif.Model.Layout
+import RtenVerif.Lemmas.Layout
+import RtenVerif.Lemmas.Slice
 
 /-!
 # C09 — Layout transformations match a reference array model
-(theorems added incrementally)
+
+`denote v s` is the array a view `v = (base, len, dims)` denotes over storage `s`:
+shape `sizes dims`, element `idx` = `s (base + Σ idx_k * stride_k)`.
+For every operation `op` the T1 theorem has the form
+`(op_layout v).map (denote · s) = op_ref (denote v s)`:
+either both sides are the same array, or both report the same error class.
 -/
 namespace RtenVerif.Layout
-open RtenVerif.Arr
+open RtenVerif.Arr RtenVerif.Overlap
 
-/-- smoke test of the model (a test, not a theorem about all inputs). -/
-theorem c09_smoke : (transposed ⟨0, 6, [(2, 3), (3, 1)]⟩).dims = [(3, 1), (2, 3)] := by decide
+variable {α : Type} [Inhabited α]
+
+theorem map_getD_range {β : Type} (d : List β) (x : β) :
+    (List.range d.length).map (fun i => d.getD i x) = d := by
+  apply List.ext_getElem
+  · simp
+  · intro i h1 h2
+    simp [List.getD_eq_getElem?_getD, List.getElem?_eq_getElem h2]
+
+theorem transposed_dims (v : View) : (transposed v).dims = v.dims.reverse := by
+  simp only [transposed, permuteIter]
+  rw [List.map_reverse, map_getD_range]
+
+/-- **C09.T1 transpose.** -/
+theorem c09_transpose (v : View) (s : Nat → α) :
+    denote (transposed v) s = (denote v s).transpose := by
+  unfold NArr.transpose
+  apply denote_refines v (transposed v) s List.reverse
+  · simp [transposed_dims, sizes, denote]
+  · intro idx h
+    have hl := validIdx_length h
+    simp only [denote, NArr.ofFn_shape, List.length_reverse] at hl h ⊢
+    rw [← validIdx_reverse _ _ (by simp [hl]), List.reverse_reverse]
+    exact h
+  · intro idx h
+    have hl := validIdx_length h
+    simp only [denote, NArr.ofFn_shape, List.length_reverse, sizes_length] at hl
+    rw [transposed_dims]
+    show (transposed v).base + _ = _
+    simp only [transposed]
+    rw [← offset_reverse v.dims idx.reverse (by simp [hl]), List.reverse_reverse]
+
+/-- **C09.T1 move_axis**: same array, or both panic (axis out of range). -/
+theorem c09_move_axis (v : View) (src dst : Nat) (s : Nat → α) :
+    (moveAxis v src dst).map (fun v' => denote v' s) = (denote v s).moveAxis src dst := by
+  unfold moveAxis NArr.moveAxis
+  have hr : (denote v s).rank = v.dims.length := by simp [NArr.rank, denote]
+  rw [hr]
+  by_cases hc : src < v.dims.length ∧ dst < v.dims.length
+  · rw [if_pos hc, if_pos hc]
+    simp only [Except.map]
+    congr 1
+    obtain ⟨hs, hd⟩ := hc
+    have hE : (v.dims.eraseIdx src).length = v.dims.length - 1 := by
+      simp [List.length_eraseIdx, hs]
+    have hEs : ((sizes v.dims).eraseIdx src).length = v.dims.length - 1 := by
+      simp [List.length_eraseIdx, hs]
+    have hIs : ∀ x, (((sizes v.dims).eraseIdx src).insertIdx dst x).length = v.dims.length := by
+      intro x
+      rw [List.length_insertIdx, hEs, if_pos (by omega)]; omega
+    apply denote_refines v _ s
+      (fun idx => (idx.eraseIdx dst).insertIdx src (idx.getD dst 0))
+    · simp only [denote, NArr.ofFn_shape, sizes_insertIdx, sizes_eraseIdx, sizes_getD]
+    · intro idx h
+      have hl := validIdx_length h
+      simp only [denote, NArr.ofFn_shape] at h hl ⊢
+      have hl' : idx.length = v.dims.length := by rw [hl, hIs]
+      have hEi : (idx.eraseIdx dst).length = v.dims.length - 1 := by
+        simp [List.length_eraseIdx, hl', hd]
+      rw [← insertIdx_eraseIdx_getD idx dst 0 (by omega)] at h
+      rw [validIdx_insertIdx _ _ _ _ _ (by omega) (by omega)] at h
+      rw [← insertIdx_eraseIdx_getD (sizes v.dims) src 0 (by simpa using hs)]
+      rw [validIdx_insertIdx _ _ _ _ _ (by omega) (by omega)]
+      exact h
+    · intro idx h
+      have hl := validIdx_length h
+      simp only [denote, NArr.ofFn_shape] at h hl
+      have hl' : idx.length = v.dims.length := by rw [hl, hIs]
+      have hEi : (idx.eraseIdx dst).length = v.dims.length - 1 := by
+        simp [List.length_eraseIdx, hl', hd]
+      show v.base + _ = _
+      congr 1
+      show offset ((v.dims.eraseIdx src).insertIdx dst (v.dims.getD src (0, 0))) idx = _
+      have e1 := insertIdx_eraseIdx_getD idx dst 0 (by omega)
+      have e2 := insertIdx_eraseIdx_getD v.dims src (0, 0) hs
+      calc offset ((v.dims.eraseIdx src).insertIdx dst (v.dims.getD src (0, 0))) idx
+          = offset ((v.dims.eraseIdx src).insertIdx dst (v.dims.getD src (0, 0)))
+              ((idx.eraseIdx dst).insertIdx dst (idx.getD dst 0)) := by rw [e1]
+        _ = idx.getD dst 0 * (v.dims.getD src (0, 0)).2 + offset (v.dims.eraseIdx src) (idx.eraseIdx dst) :=
+              offset_insertIdx _ _ _ _ _ (by omega) (by omega)
+        _ = offset ((v.dims.eraseIdx src).insertIdx src (v.dims.getD src (0, 0)))
+              ((idx.eraseIdx dst).insertIdx src (idx.getD dst 0)) :=
+              (offset_insertIdx _ _ _ _ _ (by omega) (by omega)).symm
+        _ = offset v.dims ((idx.eraseIdx dst).insertIdx src (idx.getD dst 0)) := by rw [e2]
+  · rw [if_neg hc, if_neg hc]; rfl
+
+/-- **C09.T1 insert_axis**: same array, or both panic (`index > ndim`).  The stride chosen for
+the new axis is irrelevant: its only valid index is 0. -/
+theorem c09_insert_axis (v : View) (k : Nat) (s : Nat → α) :
+    (insertAxis v k).map (fun v' => denote v' s) = (denote v s).insertAxis k := by
+  unfold insertAxis NArr.insertAxis
+  have hr : (denote v s).rank = v.dims.length := by simp [NArr.rank, denote]
+  rw [hr]
+  by_cases hc : k ≤ v.dims.length
+  · rw [if_pos hc, if_pos hc]
+    simp only [Except.map]
+    congr 1
+    generalize (maxByStride v.dims).getD (1, 1) = m
+    obtain ⟨sz, st⟩ := m
+    have hI : ((sizes v.dims).insertIdx k 1).length = v.dims.length + 1 := by
+      rw [List.length_insertIdx, sizes_length, if_pos hc]
+    apply denote_refines v _ s (fun idx => idx.eraseIdx k)
+    · simp only [denote, NArr.ofFn_shape, sizes_insertIdx]
+    · intro idx h
+      have hl := validIdx_length h
+      simp only [denote, NArr.ofFn_shape] at h hl ⊢
+      rw [hI] at hl
+      have hEi : (idx.eraseIdx k).length = v.dims.length := by
+        simp [List.length_eraseIdx, hl]; omega
+      rw [← insertIdx_eraseIdx_getD idx k 0 (by omega)] at h
+      rw [validIdx_insertIdx _ _ _ _ _ (by simpa using hc) (by simp [hEi])] at h
+      simp only [Bool.and_eq_true] at h
+      exact h.2
+    · intro idx h
+      have hl := validIdx_length h
+      simp only [denote, NArr.ofFn_shape] at h hl
+      rw [hI] at hl
+      have hEi : (idx.eraseIdx k).length = v.dims.length := by
+        simp [List.length_eraseIdx, hl]; omega
+      have e1 := insertIdx_eraseIdx_getD idx k 0 (by omega)
+      rw [← e1] at h
+      rw [validIdx_insertIdx _ _ _ _ _ (by simpa using hc) (by simp [hEi])] at h
+      simp only [Bool.and_eq_true, decide_eq_true_eq] at h
+      show v.base + offset (v.dims.insertIdx k (1, st * sz)) idx = _
+      congr 1
+      calc offset (v.dims.insertIdx k (1, st * sz)) idx
+          = offset (v.dims.insertIdx k (1, st * sz)) ((idx.eraseIdx k).insertIdx k (idx.getD k 0)) := by
+            rw [e1]
+        _ = idx.getD k 0 * (st * sz) + offset v.dims (idx.eraseIdx k) :=
+            offset_insertIdx _ _ _ _ _ hc (by omega)
+        _ = offset v.dims (idx.eraseIdx k) := by
+            have : idx.getD k 0 = 0 := by omega
+            rw [this]; omega
+  · rw [if_neg hc, if_neg hc]; rfl
+
+/-- **C09.T1 remove_axis**: same array, or both panic (no such axis / size ≠ 1). -/
+theorem c09_remove_axis (v : View) (k : Nat) (s : Nat → α) :
+    (removeAxis v k).map (fun v' => denote v' s) = (denote v s).removeAxis k := by
+  unfold removeAxis NArr.removeAxis
+  have hr : (denote v s).rank = v.dims.length := by simp [NArr.rank, denote]
+  have hsh : (denote v s).shape = sizes v.dims := rfl
+  rw [hr, hsh, sizes_getD]
+  by_cases hc : k < v.dims.length ∧ (v.dims.getD k (0, 0)).1 = 1
+  · rw [if_pos hc, if_pos hc]
+    simp only [Except.map]
+    congr 1
+    obtain ⟨hk, h1⟩ := hc
+    have hE : (v.dims.eraseIdx k).length = v.dims.length - 1 := by
+      simp [List.length_eraseIdx, hk]
+    have hEs : ((sizes v.dims).eraseIdx k).length = v.dims.length - 1 := by
+      simp [List.length_eraseIdx, hk]
+    apply denote_refines v _ s (fun idx => idx.insertIdx k 0)
+    · simp only [sizes_eraseIdx]
+    · intro idx h
+      have hl := validIdx_length h
+      rw [hEs] at hl
+      rw [← insertIdx_eraseIdx_getD (sizes v.dims) k 0 (by simpa using hk)]
+      rw [validIdx_insertIdx _ _ _ _ _ (by omega) (by omega), h, sizes_getD, h1]
+      simp
+    · intro idx h
+      have hl := validIdx_length h
+      rw [hEs] at hl
+      show v.base + offset (v.dims.eraseIdx k) idx = _
+      congr 1
+      have e2 := insertIdx_eraseIdx_getD v.dims k (0, 0) hk
+      calc offset (v.dims.eraseIdx k) idx
+          = 0 * (v.dims.getD k (0, 0)).2 + offset (v.dims.eraseIdx k) idx := by simp
+        _ = offset ((v.dims.eraseIdx k).insertIdx k (v.dims.getD k (0, 0))) (idx.insertIdx k 0) :=
+            (offset_insertIdx _ _ _ _ _ (by omega) (by omega)).symm
+        _ = offset v.dims (idx.insertIdx k 0) := by rw [e2]
+  · rw [if_neg hc, if_neg hc]; rfl
+
+/-! ## T2: chains of operations compose -/
+
+/-- The view operations covered by a T1 theorem above. -/
+inductive VOp
+  | tr
+  | mv (src dst : Nat)
+  | ia (k : Nat)
+  | ra (k : Nat)
+
+def VOp.applyL : VOp → View → Except Err View
+  | .tr, v => .ok (transposed v)
+  | .mv a b, v => moveAxis v a b
+  | .ia k, v => insertAxis v k
+  | .ra k, v => removeAxis v k
+
+def VOp.applyR : VOp → NArr α → Except Err (NArr α)
+  | .tr, A => .ok A.transpose
+  | .mv a b, A => A.moveAxis a b
+  | .ia k, A => A.insertAxis k
+  | .ra k, A => A.removeAxis k
+
+theorem c09_step (op : VOp) (v : View) (s : Nat → α) :
+    (op.applyL v).map (fun v' => denote v' s) = op.applyR (denote v s) := by
+  cases op with
+  | tr => simp only [VOp.applyL, VOp.applyR, Except.map, c09_transpose]
+  | mv a b => exact c09_move_axis v a b s
+  | ia k => exact c09_insert_axis v k s
+  | ra k => exact c09_remove_axis v k s
+
+def chainL : List VOp → View → Except Err View
+  | [], v => .ok v
+  | op :: ops, v => match op.applyL v with
+    | .ok v' => chainL ops v'
+    | .error e => .error e
+
+def chainR : List VOp → NArr α → Except Err (NArr α)
+  | [], A => .ok A
+  | op :: ops, A => match op.applyR A with
+    | .ok A' => chainR ops A'
+    | .error e => .error e
+
+/-- **C09.T2** Any chain of the operations above, applied to the layout, denotes what the same
+chain of reference operations yields on the denoted array; a failing step fails on both sides
+with the same error class (by induction over the chain from the T1 theorems). -/
+theorem c09_chain (ops : List VOp) (v : View) (s : Nat → α) :
+    (chainL ops v).map (fun v' => denote v' s) = chainR ops (denote v s) := by
+  induction ops generalizing v with
+  | nil => rfl
+  | cons op ops ih =>
+    have hstep := c09_step op v s
+    simp only [chainL, chainR]
+    cases hL : op.applyL v with
+    | error e =>
+      rw [hL] at hstep
+      simp only [Except.map] at hstep
+      rw [← hstep]
+      rfl
+    | ok v' =>
+      rw [hL] at hstep
+      simp only [Except.map] at hstep
+      rw [← hstep]
+      exact ih v'
+
+/-- Non-vacuity: a chain that runs to completion on a non-contiguous source, evaluated. -/
+example : (chainL [.tr, .ia 1, .mv 0 2, .ra 0] ⟨1, 12, [(2, 4), (3, 1)]⟩).map
+      (fun v' => denote v' (fun i => i)) =
+    .ok (⟨[2, 3], [1, 2, 3, 5, 6, 7]⟩ : NArr Nat) := by rfl
+
+/-- … and one that fails in the middle on both sides. -/
+example : (chainL [.tr, .ra 0] ⟨0, 6, [(2, 3), (3, 1)]⟩).map (fun v' => denote v' (fun i => i)) =
+    (.error .panic : Except Err (NArr Nat)) ∧
+    chainR [.tr, .ra 0] (⟨[2, 3], [0, 1, 2, 3, 4, 5]⟩ : NArr Nat) = .error .panic := ⟨by rfl, by rfl⟩
+
+/-! ## T3: slice arithmetic agrees with the NumPy / CPython definition
+
+For every `start`, optional `stop`, `step ≠ 0` over unbounded `Int` and every axis length `n`. -/
+
+/-- **C09.T3a** `resolve` (positive step, used by the view-returning `slice`): succeeds exactly
+when no bound needs clamping and then returns CPython's adjusted bounds. -/
+theorem c09_resolve_matches_numpy (r : SliceRange) (n : Nat) (ht : r.step > 0) :
+    r.resolve n =
+      if NArr.inBounds r.start n && r.stop.all (NArr.inBounds · n) then
+        some ((pyBounds r.start r.stop r.step n).1.toNat,
+          (max (pyBounds r.start r.stop r.step n).2 (pyBounds r.start r.stop r.step n).1).toNat)
+      else none :=
+  resolve_pos r n ht
+
+/-- **C09.T3b** `index_range` / `IndexRange::steps` / the index iterator, positive step: never
+fails; the indices are exactly `a[start:stop:step]`'s and `steps` is their number. -/
+theorem c09_index_range_pos_matches_numpy (r : SliceRange) (n : Nat) (ht : r.step > 0) :
+    ∃ ir, r.indexRange n = .ok ir ∧ ir.toList = pyIndices r.start r.stop r.step n ∧
+      ir.steps = pyCount r.start r.stop r.step n :=
+  let ⟨ir, h1, h2, h3, _⟩ := indexRange_pos r n ht
+  ⟨ir, h1, h2, h3⟩
+
+/-- Full statement for negative steps — "`index_range` returns exactly NumPy's indices for every
+`(start, stop, step < 0, n)`" — is **false** of the code: reversing an empty axis, or starting
+below `-n`, panics (`dim_size - 1 - resolved.start` underflows) where NumPy yields `[]`. -/
+theorem c09_index_range_neg_full_false :
+    ¬ ∀ (r : SliceRange) (n : Nat), r.step < 0 →
+      ∃ ir, r.indexRange n = .ok ir ∧ ir.toList = pyIndices r.start r.stop r.step n := by
+  intro h
+  obtain ⟨ir, h1, _⟩ := h ⟨-1, none, -1⟩ 0 (by decide)
+  have e : (SliceRange.mk (-1) none (-1)).indexRange 0 = .error .panic := by rfl
+  rw [e] at h1
+  cases h1
+
+/-- **C09.T3c (partial)** negative step: the code either panics — exactly when NumPy's adjusted
+start is `-1`, i.e. `start < -n` or `n = 0`, in which case NumPy's answer is the empty list — or
+returns exactly NumPy's indices.  Missing for the full statement: the empty result in the panic
+case (finding `C09-index-range-neg-start-underflow`). -/
+theorem c09_index_range_neg_partial (r : SliceRange) (n : Nat) (ht : r.step < 0) :
+    (r.indexRange n = .error .panic ∧ (r.start < -(n : Int) ∨ n = 0) ∧
+        pyIndices r.start r.stop r.step n = []) ∨
+    (∃ ir, r.indexRange n = .ok ir ∧ ir.toList = pyIndices r.start r.stop r.step n ∧
+      ir.steps = pyCount r.start r.stop r.step n ∧ ¬ (r.start < -(n : Int) ∨ n = 0)) := by
+  have hb : (pyBounds r.start r.stop r.step n).1 = pyAdjust r.start r.step n := rfl
+  rcases indexRange_neg r n ht with ⟨h1, h2⟩ | ⟨ir, h1, h2, h3, h4⟩
+  · left
+    refine ⟨h1, (neg_start_before _ _ _ ht).mp (hb ▸ h2), ?_⟩
+    have hR := pyBounds_neg_range r n ht
+    have hc : pyCount r.start r.stop r.step n = 0 := by
+      unfold pyCount
+      rcases hp : pyBounds r.start r.stop r.step n with ⟨S, E⟩
+      rw [hp] at h2 hR
+      simp only at h2 hR
+      simp only [ht, if_true]
+      rw [if_neg (by omega)]
+    simp [pyIndices, hc]
+  · right
+    exact ⟨ir, h1, h2, h3, fun h => h4 (hb ▸ (neg_start_before _ _ _ ht).mpr h)⟩
+
+/-- Non-vacuity of both branches. -/
+example : (SliceRange.mk (-1) (some (-6)) (-2)).indexRange 5 = .ok ⟨4, -1, -2⟩ ∧
+    (IndexRange.mk 4 (-1) (-2)).toList = [4, 2, 0] ∧ pyIndices (-1) (some (-6)) (-2) 5 = [4, 2, 0] ∧
+    (SliceRange.mk (-4) none (-1)).indexRange 3 = .error .panic ∧ pyIndices (-4) none (-1) 3 = [] := by
+  refine ⟨by rfl, by rfl, by rfl, by rfl, by rfl⟩
+
+/-! ## `slice_copy` deviates from the reference (findings) -/
+
+def toRefItem : SliceItem → NArr.Item
+  | .index i => .index i
+  | .range r => .range r.start r.stop r.step
+
+/-- Full statement "`slice_copy` yields what NumPy's `a[items].copy()` yields, or panics" is
+**false** of the code: on the slow path (negative step or clamped bound) the axes that have no
+slice item are dropped from the result shape.  Witness: a contiguous 3×1 tensor sliced with
+`[::-2]` comes back with shape `[2]` instead of `[2, 1]`
+(finding `C09-slice-copy-drops-unsliced-axes`). -/
+theorem c09_slice_copy_full_false :
+    ¬ ∀ (t : TState) (items : List SliceItem) (A : NArr Nat),
+      sliceCopy t items = .ok (TState.ofArr A) →
+      NArr.sliceCopy (items.map toRefItem) t.arr = .ok A := by
+  intro h
+  have e1 : sliceCopy ⟨[0, 1, 2], ⟨0, 3, [(3, 1), (1, 1)]⟩⟩ [.range ⟨-1, none, -2⟩] =
+      .ok (TState.ofArr ⟨[2], [2, 0]⟩) := by rfl
+  have e2 : NArr.sliceCopy ([SliceItem.range ⟨-1, none, -2⟩].map toRefItem)
+      (TState.arr ⟨[0, 1, 2], ⟨0, 3, [(3, 1), (1, 1)]⟩⟩) = .ok ⟨[2, 1], [2, 0]⟩ := by rfl
+  have h1 := h _ _ _ e1
+  rw [e2] at h1
+  injection h1 with h2
+  injection h2 with h3 _
+  revert h3
+  decide
 
 end RtenVerif.Layout
